@@ -765,6 +765,9 @@ def run_round4(run, r, unit, model, n):
         nx = [r.randint(1, 6) for _ in range(nd)]
         lower = [V.dyadic(r, -4, 4) for _ in range(nd)]
         wd = [r.choice(widths) for _ in range(nd)]
+        if r.random() < 0.3:      # the same geometry at another scale (1e-8 .. 1e8): exact, powers of two
+            sc_ = 2.0 ** r.randint(-27, 27)
+            lower = [l * sc_ for l in lower]; wd = [w * sc_ for w in wd]
         per = [r.randint(0, 1) for _ in range(nd)]
         xs = []
         for d in range(nd):
